@@ -17,6 +17,7 @@ deriving DecidableEq, Repr
 
 inductive Api where
   | publish (p : Pub) (tag : Nat)                                    -- tag 0: no completion callback
+  /-- `cb` is the identity of this request's message callback (the `&onPublish` pointer the call allocates: fresh per request) -/
   | subscribe (id : Nat) (topics : List (Bytes × Nat)) (tag cb : Nat)
   | unsubscribe (id : Nat) (topics : List Bytes) (tag : Nat)
   | ping (tag : Nat)
